@@ -232,6 +232,19 @@ SEEN = []
 _WCLASSES = {}
 
 
+_SHAPE = ['closure']
+
+
+class _ClassWrapper(object):
+    def __init__(self, app, wid):
+        self.app = app
+        self.wid = wid
+
+    def __call__(self, environ, start_response):
+        SEEN.append(self.wid)
+        return self.app(environ, start_response)
+
+
 def _wclass(tid, has_wrapper):
     """one middleware type per (tid, wrapper-ness); odd types derive from the preceding even one (both of its variants), so
     stacks contain distinct types that are related by inheritance"""
@@ -240,6 +253,9 @@ def _wclass(tid, has_wrapper):
     if key not in _WCLASSES:
         def wsgi_wrapper(self, inner):
             wid = self.wid
+            if _SHAPE[0] == 'class' or (_SHAPE[0] == 'mixed' and int(wid[1:]) % 2):
+                # the conventional class-based WSGI middleware: the wrapped application kept on the instance as `.app`
+                return _ClassWrapper(inner, wid)
 
             def wrapped(environ, start_response):
                 SEEN.append(wid)
@@ -270,6 +286,8 @@ def stack_strategy():
         'validator': st.booleans(),
         # public API used after construction: the error handler is replaced / reset; the wrapper stack must survive it
         'rehandle': st.sampled_from([None, None, 'reset', 'new']),
+        # what a wsgi_wrapper returns: a closure, or an instance of a class that keeps the wrapped application as `.app`
+        'shape': st.sampled_from(['closure', 'class', 'mixed']),
     })
 
 
@@ -294,6 +312,7 @@ def order_problem(seen, outer_w, inner_w, expected_set):
 def stack_body(case, ctx):
     from clastic import Application, Route, Response, POST
     rc = case
+    _SHAPE[0] = case.get('shape') or 'closure'
     outer_mws = [wrapper_mw(t, w) for t, w in case['outer']]
     has_w = dict((t, w) for t, w in case['outer'])
     routes = []
